@@ -62,7 +62,7 @@ def gen_program(rng, size):
             emit({"op": "lit", "v": str(R.big_int(rng))}, "lit")
         elif k < 0.55 and ints:
             a, b = rng.choice(ints), rng.choice(ints)
-            emit({"op": "bin", "bop": rng.choice(["add", "sub", "mul"]), "a": a, "b": b},
+            emit({"op": "bin", "bop": rng.choice(["add", "sub", "mul"]), "a": a, "b": b, **({"aug": True} if rng.random() < 0.2 else {})},
                  "lit" if kind[a] == "lit" and kind[b] == "lit" else "int")
         elif k < 0.75 and ints:
             a, b = rng.choice(ints), rng.choice(ints)
@@ -74,8 +74,14 @@ def gen_program(rng, size):
             emit({"op": "bin", "bop": "add", "a": rng.choice(regs(["int", "bool", "party", "litbool"]) or ints), "b": rng.choice(ints)}, "int")
     nouts = rng.randint(1, 4)
     cands = regs(["int"]) or regs(["lit"])
+    # values that were used as the left operand of an arithmetic step and are delivered as well: the step must not have
+    # changed them (an accumulator `t = x; t += y` starts as an alias of x)
+    seeds_ = [c["a"] for c in cmds if c["op"] == "bin" and c["bop"] in ("add", "sub", "mul") and kind[c["a"]] == "int"]
+    seeds_ = [c["a"] for c in cmds if c.get("aug") and kind[c["a"]] == "int"] * 3 + seeds_
     for i in range(nouts):
         v = rng.choice(cands if rng.random() < 0.95 else regs(["int", "lit", "bool"]) or cands)
+        if seeds_ and rng.random() < 0.35:
+            v = rng.choice(seeds_)
         emit({"op": "out", "v": v, "name": f"o{i}", "party": rng.choice(regs(["party"]))}, "out")
     return cmds
 
@@ -101,8 +107,11 @@ def render(rng, cmds, module_level=0):
             k = rng.random()
             if c["bop"] == "add" and k < 0.25:
                 s = f"{v} = sum([{a}, {b}])"
-            elif c["bop"] == "add" and k < 0.4:
+            elif c["bop"] == "add" and k < 0.33:
                 s = f"{v} = {a}\nfor _t in [{b}]:\n    {v} = {v} + _t"
+            elif c["bop"] in ("add", "sub", "mul") and (0.33 <= k < 0.47 or c.get("aug")):
+                # augmented assignment: the accumulator starts as an *alias* of an existing value, which must stay what it was
+                s = rng.choice([f"{v} = {a}\n{v} {sym}= {b}", f"{v} = {a}\nfor _t in [{b}]:\n    {v} {sym}= _t"])
             elif k < 0.55:
                 s = f"{v} = [_x {sym} {b} for _x in [{a}]][0]"
             elif k < 0.7 and c["bop"] in ("add", "sub", "mul"):
@@ -267,6 +276,13 @@ CORPUS = [
       {"op": "input", "name": "dead", "party": 1}, {"op": "input", "name": "raw", "party": 0},
       {"op": "wrap", "secret": True, "r": 2}, {"op": "wrap", "secret": False, "r": 3},
       {"op": "bin", "bop": "mul", "a": 5, "b": 5}, {"op": "out", "v": 7, "name": "o", "party": 0}], 5),
+    # accumulators seeded with an existing value that is delivered as well (`t = base; t += extra`): base stays what it was
+    ([{"op": "party", "name": "Carol"}, {"op": "input", "name": "base", "party": 0}, {"op": "input", "name": "extra", "party": 0},
+      {"op": "wrap", "secret": False, "r": 1}, {"op": "wrap", "secret": True, "r": 2},
+      {"op": "bin", "bop": "add", "a": 3, "b": 4, "aug": True}, {"op": "bin", "bop": "mul", "a": 3, "b": 5, "aug": True},
+      {"op": "bin", "bop": "sub", "a": 3, "b": 4, "aug": True},
+      {"op": "out", "v": 3, "name": "base", "party": 0}, {"op": "out", "v": 5, "name": "total", "party": 0},
+      {"op": "out", "v": 6, "name": "scaled", "party": 0}, {"op": "out", "v": 7, "name": "rest", "party": 0}], 0),
     # a re-wrapped input: public first, secret last
     ([{"op": "party", "name": "A"}, {"op": "input", "name": "bid", "party": 0}, {"op": "wrap", "secret": False, "r": 1},
       {"op": "wrap", "secret": True, "r": 1}, {"op": "bin", "bop": "add", "a": 2, "b": 3},
